@@ -74,6 +74,7 @@ type Report struct {
 	Failures   []Replay `json:"failures"`
 	Exhausted  bool     `json:"exhausted"`
 	Tainted    bool     `json:"tainted"`
+	NextIdx    int      `json:"next_idx"`
 	WallS      float64  `json:"wall_s"`
 	MemoMisses int      `json:"reference_evaluations"`
 	Hashes     []string `json:"hashes,omitempty"`
